@@ -513,6 +513,23 @@ var scenarios = []scenario{
 		w.connect("t1")
 		w.judge(seed, "sync_wakeup_serializable", qd)
 	}},
+	// serializable_two_followers: a SERIALIZABLE change on {t1, t2}, then a change on t1 only and a change on t2 only, all
+	// committed while the devices are away (the two followers wait at the apply gate); then both devices connect: the
+	// transaction event of the first transaction has to wake BOTH followers
+	{"serializable_two_followers", func(seed int64, r *rand.Rand, qd time.Duration) {
+		w := newWorld(opts{})
+		defer w.stop()
+		w.target("t1", false)
+		w.target("t2", false)
+		w.change(true, "t1", "a", "t2", "a")
+		w.quiet(qd/2, 5*qd)
+		w.change(false, "t1", "b")
+		w.change(false, "t2", "c")
+		w.quiet(qd/2, 5*qd)
+		w.connect("t1")
+		w.connect("t2")
+		w.judge(seed, "serializable_two_followers", qd)
+	}},
 	// wedged_target / requeue cycle: {t1 refuses, t2 fine}; the transaction controller is slower than the proposal
 	// controller, so the refusal of t1 is seen before t2's apply was started; then a change on t2
 	{"wedged_target", func(seed int64, r *rand.Rand, qd time.Duration) {
